@@ -59,8 +59,8 @@ def expected_sources : List (String × String) := [
   ("hash.bytes_repr_seq", "2a12dbfdbdfcbfe2865d7c2a"),
   ("hash.bytes_repr_set", "d4ac405f564d4af41c53ed2c"),
   ("hash.bytes_repr_code", "e03593b5287cabda61ec5b6f"),
-  ("hash.bytes_repr_function", "d3de66588dcc19b07d9e2ff8"),
-  ("hash.bytes_repr_mapping_contents", "c89e0244d1924bd14076300b"),
+  ("hash.bytes_repr_function", "66e85fc106aee0aad583db1e"),
+  ("hash.bytes_repr_mapping_contents", "25f43b26791680c1eb799036"),
   ("hash.bytes_repr_sequence_contents", "ee888d21f3f444fc2421eac9"),
   ("hash.bytes_repr_numpy", "20bcbf13d412dab7514b7f91"),
   ("task._hash", "718091d0f876d5b29a488c40"),
